@@ -213,6 +213,10 @@ pub fn c10(ctx: &Ctx) -> PropResult {
     for src in crate::props6::text_index_byte_window_family() {
         cases.push(run_case(src, "text-index-byte-window"));
     }
+    // (appended, round 17) SUBSTRING with positions 1 .. beyond the text and counts at the limits of the machine integers
+    for src in crate::props6::text_huge_count_family() {
+        cases.push(run_case(src, "text-huge-count"));
+    }
     let stats = run_cases(&ctx.driver, cases, &no_panic_oracle, &no_known, ctx.threads);
     PropResult {
         stats,
